@@ -152,7 +152,7 @@ func FrameNative(b []byte) (int, error) {
 		return 0, ErrIncomplete
 	}
 	n, err := strconv.Atoi(string(b[1:sp]))
-	if err != nil || sp == 1 {
+	if err != nil || sp == 1 || n < 0 || n > 1<<31 {
 		return 0, malformed("bad native length in %q", trunc(b))
 	}
 	end := sp + 1 + n + 2
@@ -208,7 +208,7 @@ func FrameHTTP(b []byte) (int, error) {
 		}
 		if strings.EqualFold(strings.TrimSpace(l[:i]), "Content-Length") {
 			n, err := strconv.Atoi(strings.TrimSpace(l[i+1:]))
-			if err != nil || n < 0 {
+			if err != nil || n < 0 || n > 1<<31 {
 				return 0, malformed("bad Content-Length %q", l)
 			}
 			cl = n
